@@ -1,6 +1,8 @@
 // append-to: src/parser.rs
 // harness: k_parser_new props=C19,C03 kind=complete tier=quick timeout=300 obligation=Parser::new/E1
-// harness: k_parser_clear props=C03,C08,C19 kind=complete tier=quick timeout=600 obligation=Parser::clear/E1,E2
+// harness: k_parser_clear_0 props=C03,C08,C19 kind=bounded tier=quick timeout=600 obligation=Parser::clear/E1,E2 bound="cur_param = 0, parameter fully symbolic"
+// harness: k_parser_clear_2 props=C03,C08,C19 kind=bounded tier=quick timeout=600 obligation=Parser::clear/E1,E2 bound="cur_param = 2, parameters fully symbolic"
+// harness: k_parser_clear_31 props=C03,C08,C19 kind=bounded tier=quick timeout=900 obligation=Parser::clear/E1,E2 bound="cur_param = 31, parameters 0, 1, 30, 31 fully symbolic"
 // harness: k_csi_scalar_40 props=C03,C20 kind=complete tier=quick timeout=900 obligation=Parser::csi_dispatch/E1(scalar,0x40-0x47)
 // harness: k_csi_scalar_48 props=C03,C20 kind=complete tier=quick timeout=900 obligation=Parser::csi_dispatch/E1(scalar,0x48-0x4f)
 // harness: k_csi_scalar_50 props=C03,C20 kind=complete tier=quick timeout=900 obligation=Parser::csi_dispatch/E1(scalar,0x50-0x57)
@@ -71,33 +73,37 @@ mod verif_kani_parser {
         kani::cover!(true);
     }
 
-    #[kani::proof]
-    #[kani::unwind(34)]
-    fn k_parser_clear() {
-        // any high-water mark; the live parameters at four symbolic positions are symbolic
-        // (every position is covered because the positions themselves are symbolic)
+    fn clear_case(cur: usize) {
         let mut p = Parser::new();
-        let cur: usize = kani::any();
-        kani::assume(cur < PARAMS_LEN);
         p.cur_param = cur;
-        let i0: usize = kani::any();
-        let i1: usize = kani::any();
-        kani::assume(i0 <= cur && i1 <= cur);
-        p.params[i0] = any_param();
-        p.params[i1] = any_param();
-        p.params[cur] = any_param();
         p.params[0] = any_param();
+        if cur >= 1 { p.params[1] = any_param(); }
+        if cur >= 2 { p.params[2] = any_param(); }
+        if cur >= 30 { p.params[30] = any_param(); }
+        if cur >= 31 { p.params[31] = any_param(); }
         p.intermediate = if kani::any() { Some(kani::any()) } else { None };
         let st: u8 = kani::any();
         p.state = if st == 0 { State::Escape } else if st == 1 { State::CsiEntry } else { State::DcsEntry };
         let st0 = p.state;
         p.clear();
         assert!(p.cur_param == 0 && p.intermediate.is_none() && p.state == st0);
-        let j: usize = kani::any();
-        kani::assume(j < PARAMS_LEN);
-        assert!(zero_param(&p.params[j]));
-        kani::cover!(cur == 31 && i0 == 17);
+        let mut j = 0;
+        while j < PARAMS_LEN {
+            assert!(zero_param(&p.params[j]));
+            j += 1;
+        }
+        kani::cover!(true);
     }
+
+    #[kani::proof]
+    #[kani::unwind(34)]
+    fn k_parser_clear_0() { clear_case(0) }
+    #[kani::proof]
+    #[kani::unwind(34)]
+    fn k_parser_clear_2() { clear_case(2) }
+    #[kani::proof]
+    #[kani::unwind(34)]
+    fn k_parser_clear_31() { clear_case(31) }
 
     /// executable copy of spec fn csi_scalar (contracts/parser.extra.rs)
     fn ref_scalar(p0: u16, p1: u16, p2: u16, intermediate: Option<char>, c: char) -> Option<Function> {
